@@ -1142,14 +1142,21 @@ def _normpath(I, args, kwargs):
     p = args[0]
     if not isinstance(p, SymStr):
         return NotImplemented
-    if not all(isinstance(seg, str) or models._sep_free(seg, "/") for seg in p.segs):
-        I.unsupported("normpath of a symbolic path whose symbolic parts may contain '/'")
+    if all(isinstance(seg, str) or models._sep_free(seg, "/") for seg in p.segs):
+        first = p.segs[0]
+        slashes = 0
+        if isinstance(first, str):
+            slashes = len(first) - len(first.lstrip("/"))
+        initial = 0 if slashes == 0 else (2 if slashes == 2 else 1)
+    else:
+        # any symbolic text: the number of leading slashes (0, 1, exactly 2, more) and the number of components fork
+        if not I.truth(models._s_startswith(I, p, ["/"], {})):
+            initial = 0
+        elif I.truth(models._s_startswith(I, p, ["//"], {})) and not I.truth(models._s_startswith(I, p, ["///"], {})):
+            initial = 2
+        else:
+            initial = 1
     comps = models._split_impl(I, p, "/", -1, False)
-    first = p.segs[0]
-    slashes = 0
-    if isinstance(first, str):
-        slashes = len(first) - len(first.lstrip("/"))
-    initial = 0 if slashes == 0 else (2 if slashes == 2 else 1)
     new = []
     for c in comps:
         if isinstance(c, str):
